@@ -1,7 +1,7 @@
 #!/usr/bin/env python3
 """Confirm seeded changes written by independent sub-agents in scratch worktrees /tmp/wt-<id>/seed
 (suite passes with the patch, demo fails with it and passes without), run our checks against each
-and store them under /verif/seeded/<id>-<n>/.   usage: bin/seedconfirm.py C13 [C12 ...]"""
+and store them under /verif/seeded/<id>-<n>/ (SEED_WT = worktree prefix, SEED_OFFSET = added to n for later rounds).   usage: bin/seedconfirm.py C13 [C12 ...]"""
 import json, os, shutil, subprocess, sys, time
 
 ROOT = os.path.dirname(os.path.dirname(os.path.abspath(__file__)))
@@ -20,14 +20,14 @@ def sh(cmd, cwd, env=None, timeout=1800):
 
 def main():
     for pid in sys.argv[1:]:
-        wt = "/tmp/wt-%s" % pid
+        wt = "%s-%s" % (os.environ.get("SEED_WT", "/tmp/wt"), pid)
         env = {"CARGO_TARGET_DIR": wt + "/target"}
         for n in (1, 2, 3):
             patch = "%s/seed/patch%d.diff" % (wt, n)
             demo = "%s/seed/demo%d.rs" % (wt, n)
             if not os.path.exists(patch):
                 continue
-            name = "%s-%d" % (pid, n)
+            name = "%s-%d" % (pid, n + int(os.environ.get("SEED_OFFSET", "0")))
             meta = dict(property=pid, name=name, ran=[])
             sh("git checkout -- . && rm -f tests/seed_demo*.rs", wt)
             rc, out = sh("git apply %s" % patch, wt)
